@@ -47,6 +47,21 @@ R.contract("PeerConnection.close", params={"self": "PeerConnection", "signal_nod
            modifies=["self.state", "self._read_thread.stopped", "self._write_thread.stopped"],
            props=["C05", "C19"])
 
+R.model("PeerConnection", fields={"g_handled": "Seq[Message]"})
+
+
+@R.specfn("call_opaque_handler")
+def _call_handler(ex, st, f, args, kwargs, k, where):
+    """conn.message_handler(conn, msg): every invocation is logged (ghost); the handler (Node._receive_message,
+    verified separately) raises nothing"""
+    from pyvc.smt import seq_concat, seq_unit
+    conn, msg = args
+    log = ex.read_field(st, conn, "g_handled")
+    st = ex.write_field(st, conn, "g_handled", type(log)(seq_concat(log.t, seq_unit(msg.t)), log.elem))
+    return k(st, __import__("pyvc.values", fromlist=["VNone"]).VNone)
+
+
+
 # the dispatcher as seen by the framing loop: every call is a delivery (ghost log); what the handler does to the
 # node is irrelevant here except that it leaves the read buffer alone and does not raise (C14 proves the latter
 # for Node._receive_message)
